@@ -325,6 +325,14 @@ Theorem C02_sized_iff :
 Proof. exact sized_iff_pinned. Qed.
 Print Assumptions C02_sized_iff.
 
+(** .. and when the boolean fails, a by-value walk between generated items that returns to its
+    start exists (constructively: the failing rank check yields it) *)
+Theorem C02_unsized_witness :
+  forall r s, root_fresh s -> forall teq m, generate r s teq = Ok m ->
+  by_value_acyclicb r s = false -> exists n p, walk (item_edge s m) n p p.
+Proof. exact unsized_witness_pinned. Qed.
+Print Assumptions C02_unsized_witness.
+
 (** [C02_sized] covers every case of [C02_sized_partial]: a registry that generates and has a rank
     in the sense of [bv_ranked] satisfies the boolean *)
 Theorem C02_sized_covers_partial :
